@@ -35,7 +35,10 @@ def specReport (cfg : Cfg) (attr : List (Option Obs)) (pend : Bytes → Bool) (i
   let med := medianBlock attr
   let cands := (candidateIds attr).map (mkKey med)
   let flying := inflight.map (mkKey med)
-  -- keys: valid observations only, keyed at the median block
+  -- the call returns
+  (o.status != .panicked) &&
+  -- keys: identifiers of valid observations only, keyed at the upper median of the block numbers of
+  -- exactly the observations that decode AND validate (recomputed here from the inputs)
   o.checked.all (fun k => cands.contains k) &&
   -- once, not in flight, at most ten
   decide o.checked.Nodup &&
@@ -55,8 +58,11 @@ def explainReport (cfg : Cfg) (attr : List (Option Obs)) (pend : Bytes → Bool)
   let med := medianBlock attr
   let cands := (candidateIds attr).map (mkKey med)
   let flying := inflight.map (mkKey med)
-  if !o.checked.all (fun k => cands.contains k) then
-    "checked key not built from a valid observation's identifier at the median block"
+  if o.status == .panicked then "report: panic in Report"
+  else if !o.checked.all (fun k => k.take (med.length + 1) == med ++ [124]) then
+    "report: key not at the upper median of the valid observations' block numbers"
+  else if !o.checked.all (fun k => cands.contains k) then
+    "report: key's identifier not among the first ids of a valid observation"
   else if !decide o.checked.Nodup then "same key checked twice"
   else if !o.checked.all (fun k => !pend k) then "key the coordinator reports pending was checked"
   else if !o.checked.all (fun k => !flying.contains k) then
@@ -85,7 +91,11 @@ def specObservation (st : Stager) (pend : Bytes → Bool) (out : Bytes)
     (dec : Option (Bytes × List (Option Bytes))) : Bool :=
   let allowed := (observe pend st).2
   (match dec with
-   | some (_, ids) => decide (ids.length ≤ Gen.v2ObservationUpkeepsLimit) && ids.all fun id => allowed.contains id
+   | some (b, ids) =>
+     -- the block carried is the one last sampled, and every id was sampled eligible AT THAT BLOCK
+     -- (`allowed` ⊆ the identifiers staged from the head with block `st.block`) and is not in flight
+     b == st.block &&
+     decide (ids.length ≤ Gen.v2ObservationUpkeepsLimit) && ids.all fun id => allowed.contains id
    | none => true) &&
   (!inDomain st ||
     (decide (out.length ≤ Gen.v2MaxObservationLength) && dec.isSome && decodeObs out == dec))
@@ -94,9 +104,12 @@ def explainObservation (st : Stager) (pend : Bytes → Bool) (out : Bytes)
     (dec : Option (Bytes × List (Option Bytes))) : String :=
   let allowed := (observe pend st).2
   match dec with
-  | some (_, ids) =>
-    if !decide (ids.length ≤ Gen.v2ObservationUpkeepsLimit) then "observation lists more than ObservationUpkeepsLimit ids"
-    else if !(ids.all fun id => allowed.contains id) then "observation lists an id not last sampled eligible or in flight"
+  | some (b, ids) =>
+    if !(b == st.block) then "observation: carries a block other than the one last sampled"
+    else if !decide (ids.length ≤ Gen.v2ObservationUpkeepsLimit) then "observation lists more than ObservationUpkeepsLimit ids"
+    else if !(ids.all fun id => st.ids.contains id) then
+      "observation: id was not sampled eligible at the block the observation carries"
+    else if !(ids.all fun id => allowed.contains id) then "observation: id is in flight"
     else if !inDomain st then "ok"
     else if !decide (out.length ≤ Gen.v2MaxObservationLength) then "observation longer than MaxObservationLength"
     else if !(decodeObs out == dec) then "strict decoder and encoding/json disagree"
